@@ -16,7 +16,7 @@ namespace Robust.Props.C01
 open Robust Robust.Irc
 
 /-- expected classification of every map `range` (derived by reading the code once; a new site, a
-changed ranged expression or a changed body shape makes `C01_sites` fail) -/
+changed ranged expression or a changed body shape makes `C01_sites` fail; `carry(x)` = the body writes\nthe variable `x` that lives across iterations, other than by `x = append(x, …)`; `collect+sort` = the very slice\nthe body appended to is sorted after the loop) -/
 def expectedSites : List (String × String × String) := [
   ("internal/ircserver:IRCServer.ExpireSessions", "i.sessions", "collect+calls(time.Since)"),       -- not on the apply path: proposal order only
   ("internal/ircserver:IRCServer.GetSessions", "i.sessions", "mapwrite+calls(make)"),                 -- status page copy (not on the apply path)
@@ -35,8 +35,8 @@ def expectedSites : List (String × String × String) := [
   ("internal/ircserver:IRCServer.cmdMode", "seen", "collect+sort"),
   ("internal/ircserver:IRCServer.cmdNames", "c.nicks", "collect+sort"),
   ("internal/ircserver:IRCServer.cmdNick", "i.channels", "mapwrite+delete"),                          -- each: re-key one member per channel
-  ("internal/ircserver:IRCServer.cmdPrivmsg", "session.Channels", "exit"),                            -- any: existence test
-  ("internal/ircserver:IRCServer.cmdServerKill", "i.sessions", "exit"),                               -- uniq: at most one pseudo-client owns the nick
+  ("internal/ircserver:IRCServer.cmdPrivmsg", "session.Channels", "exit+carry(common)"),              -- any: existence test (the flag is only ever set to true)
+  ("internal/ircserver:IRCServer.cmdServerKill", "i.sessions", "exit+carry(killPrefix)"),             -- uniq: at most one pseudo-client owns the nick
   ("internal/ircserver:IRCServer.cmdServerQuit", "i.sessions", "collect+sort"),
   ("internal/ircserver:IRCServer.cmdServerQuit", "i.sessions", "emit+exit+calls(i.deleteSessionLocked,msg.Trailing)"),  -- uniq: at most one owner of the prefix nick
   ("internal/ircserver:IRCServer.cmdServerSvsnick", "i.channels", "mapwrite+delete"),
@@ -53,9 +53,9 @@ def expectedSites : List (String × String × String) := [
   ("internal/ircserver:IRCServer.sendCommonChannels", "c.nicks", "mapwrite"),
   ("internal/ircserver:IRCServer.sendCommonChannels", "user.Channels", "mapwrite"),
   ("internal/outputstream:OutputStream.getUnlocked", "os.messagesCache", "exit+delete"),             -- cache eviction: node-local
-  ("internal/outputstream:messageBatch.marshal", "msg.InterestingFor", "calls(binary.LittleEndian.PutUint64,uint64)"),  -- byte order of a set (C18)
-  ("main:FSM.Snapshot", "fsm.lastSnapshotState", "delete"),
-  ("main:FSM.Snapshot", "fsm.lastSnapshotState", "pure")                                              -- maximum of the keys
+  ("internal/outputstream:messageBatch.marshal", "msg.InterestingFor", "carry(n)+calls(binary.LittleEndian.PutUint64,uint64)"),  -- byte order of a set (C18); `n` is the write offset
+  ("main:FSM.Snapshot", "fsm.lastSnapshotState", "carry(ok,stateIndex)"),                            -- maximum of the keys below the horizon
+  ("main:FSM.Snapshot", "fsm.lastSnapshotState", "delete")
 ]
 
 /-- regenerated: the map `range` sites of the source are exactly the classified ones -/
